@@ -47,6 +47,19 @@ class C10(MsgProp):
             for _ in range(6 if not thorough else 40):
                 S, G, C = g.msm_sets(r, f["gnss"])
                 cases.append((S, G, C, None))
+            # every signal of the table at once (and 16 / 17 of them), with as many satellites as 64 cells allow
+            for ng in sorted({len(pool), min(len(pool), 17), min(len(pool), 16), min(len(pool), 9)}):
+                G = r.sample(pool, ng)
+                ns = max(1, 64 // ng)
+                S = r.sample(range(1, 65), r.choice([1, ns]))
+                C = [(s_, x) for s_ in S for x in G if r.random() < 0.8]
+                for s_ in S:
+                    if not any(c[0] == s_ for c in C):
+                        C.append((s_, G[0]))
+                for x in G:
+                    if not any(c[1] == x for c in C):
+                        C.append((S[0], x))
+                cases.append((list(S), list(G), C, None))
             # adversarial listings: nearly sorted inputs (one signal of one satellite moved to the front of its
             # group, adjacent swaps, reversal), with odd/even and extreme satellite numbers and the table's
             # first and last identifiers
